@@ -179,7 +179,23 @@ def lower_guards(F, R):
     R.floor('lower-layer guards', n, 3)
 
 
+def fd_set_max(F, R):
+    """FileDescriptorSet (posix_select reactor): select() only examines descriptors below max_fd, so max_fd must stay above every attached
+    descriptor.  The invariant is kept by construction when max_fd is only ever reset to 0 (followed by a scan) or raised by
+    max(max_fd, fd + 1); a value taken from a single element (first / last attached) under-approximates after a re-attachment."""
+    n = 0
+    for f in F.find_fns(r'^iceoryx2_bb_posix::file_descriptor_set::FileDescriptorSet::\w+$'):
+        for s_ in f.sites:
+            if s_.i != 'T' and s_.node[0] == 'a' and len(s_.node[1]) > 1 and s_.node[1][-1] == '.max_fd':
+                n += 1
+                t = sym_nstr(sym(f, s_.node[2][1])) if s_.node[2][0] == 'use' else s_.node[2][0]
+                ok = t == '0' or re.match(r'^cmp::max\(.*max_fd, .*\)$', t) is not None or re.match(r'^cmp::max\(.*, .*max_fd\)$', t) is not None
+                R.ob('SYM-EQ', 'SYM-EQ::%s::max_fd-only-reset-or-raised#%d' % (fnkey(f), n), ok, 'max_fd := %s ; allowed: 0 (start of a full rescan) or max(max_fd, fd + 1)' % t[:120], s_.where, f)
+    R.floor('stores to FileDescriptorSet::max_fd', n, 3)
+
+
 def check(F, R, tier):
+    fd_set_max(F, R)
     guard_drop(F, R)
     attach_side_effect_free(F, R)
     reactor_error_mapping(F, R)
